@@ -175,3 +175,37 @@ def obs_authblock(ab):
     if isinstance(ab, B2.UnknownAuthBlock):
         return dict(kind="unknown", tag=ab.tag, value=bytes(ab.binary_value))
     return dict(kind="?", tag=getattr(ab, "tag", None), cls=type(ab).__name__)
+
+
+class DetKeys:
+    """Deterministic + recording ephemeral-key generator, registered through the public crypto registry:
+    PrivateEccKey.generate() draws its entropy from a DRBG seeded by the case, so that a case is a pure function of its data,
+    and every generated scalar is recorded.  fixed=[...] makes generate() return keys with exactly these scalars (then DRBG)."""
+
+    def __init__(self, seed=b"", fixed=()):
+        self.rng = DetRandom(b"detkeys" + bytes(seed))
+        self.scalars = []
+        self.fixed = list(fixed)
+        base = _REG0["__PrivateEccKey"]
+        outer = self
+
+        class Det(base):
+            @classmethod
+            def generate(cls):
+                if outer.fixed:
+                    k = private_key_from_int(outer.fixed.pop(0))
+                else:
+                    from register_crypto_plugin.ecdsa import SigningKey
+
+                    k = base(SigningKey.generate(curve=base.CURVE, entropy=outer.rng))
+                outer.scalars.append(k.private_key.privkey.secret_multiplier)
+                return k
+
+        self.cls = Det
+
+    def __enter__(self):
+        bec2format.register_PrivateEccKey(self.cls)
+        return self
+
+    def __exit__(self, *a):
+        registry_restore()
